@@ -17,6 +17,21 @@ func init() {
 		},
 	})
 	core.Register(&core.Property{
+		ID:         "C02",
+		Decided:    "Decides that the decoder compiler routes every JSON-decodable kind (and no other), that decoders for pointer, map, slice, interface and func destinations store a nil value on null in both modes, that UseNumber and DisallowUnknownFields are consulted where numbers reach interface{} and where unknown keys are skipped, that integer range and width rules hold (C16), that raw stores match the destination's kind (C07.R1), and that the UnmarshalJSON dispatch follows the destination's type (C06.R6); it does not decide agreement with encoding/json for any document.",
+		NotCovered: "merge semantics, duplicate keys, float parsing, error identity, nil-versus-empty, embedded-field resolution: every value-level agreement with encoding/json.",
+		Rules: []*core.Rule{
+			{ID: "C02.R1", Title: "decoder.compile has a clause returning a compile function for every kind encoding/json decodes, none for Complex/Chan/UnsafePointer, and falls through to newInvalidDecoder", Covers: "error exactly when encoding/json errors on the destination type", Min: 25, Run: c02r1},
+			{ID: "C02.R2", Title: "for every decoder type constructed only for nilable kinds (derived from compile), the null path of Decode and DecodeStream (in the method or the helper that receives p) stores through the destination pointer", Covers: "null handling agrees with encoding/json for pointers, maps, slices, interfaces", Min: 8, Run: c02r2},
+			{ID: "C02.R3", Title: "numDecoder and Token choose the number representation by s.UseNumber, the empty-interface stream decoder decodes numbers only through numDecoder, and the unknown-key branch of structDecoder.DecodeStream tests s.DisallowUnknownFields before skipValue", Covers: "UseNumber and DisallowUnknownFields keep the agreement", Min: 4, Run: c02r3},
+			{ID: "C16.R2", Title: "integer range tests per destination kind (shared with C16)", Covers: "numeric range errors agree", Configs: []string{"default"}, Deep: []string{"386"}, Min: 20, Run: c16r2},
+			{ID: "C16.R1", Title: "integer accumulation cannot overflow silently (shared with C16)", Covers: "numeric range errors agree", Min: 2, Run: c16r1},
+			{ID: "C07.R1", Title: "raw stores match the destination's kind (shared with C07)", Covers: "null and scalars leave a well-formed destination", Min: 12, Run: c07r1},
+			{ID: "C06.R6", Title: "UnmarshalJSON dispatch follows the destination's type (shared with C06)", Covers: "Unmarshal and UnmarshalContext succeed or fail together with encoding/json on unmarshaler types", Min: 2, Run: c06r6},
+			{ID: "C15.R2", Title: "an escaped key matches only a field of the same decoded length (shared with C15)", Covers: "object keys select the field encoding/json selects", Min: 4, Run: c15r2},
+		},
+	})
+	core.Register(&core.Property{
 		ID:         "C03",
 		Decided:    "Decides that every float append in the four interpreters is dominated by a NaN/Inf test with an error exit, that user marshaler output reaches the buffer only through the validating formatters, and that the trailing-separator convention is consistent (every emitter ends with the package's separator, every closer consumes exactly that many bytes, the entry points trim exactly that many); it does not decide well-formedness of the output.",
 		NotCovered: "number grammar of json.Number, full validity of marshaler output (compactString lets control bytes through), UTF-8 validity, the token order inside each opcode handler.",
